@@ -131,7 +131,12 @@ struct Env {
     hcount: StdMutex<Vec<usize>>,
     slots: StdMutex<Vec<Arc<Sharer>>>,
     shared: StdMutex<SharedAsts>,
+    /// one Arc per infix handler id: a user who registers the same closure twice (another name, or the
+    /// same name with another precedence) passes clones of ONE Arc
+    infix_arcs: StdMutex<std::collections::HashMap<usize, InfixArc>>,
 }
+
+type InfixArc = Arc<dyn Fn(Value, Value) -> expression_engine::Result<Value> + Send + Sync>;
 
 #[cfg(feature = "sim")]
 fn me() -> usize {
@@ -198,6 +203,36 @@ fn payload_string(p: Box<dyn std::any::Any + Send>) -> String {
         s.to_string()
     } else {
         "<non-string panic payload>".to_string()
+    }
+}
+
+/// one marker-descriptor registration through the given handle; ids >= REENTRANT_DESC re-enter the
+/// engine from inside the descriptor
+fn set_desc(m: &mut DescriptorManager, kind: DKind, name: &str, id: usize) {
+    fn mark(id: usize, parts: String) -> String {
+        if id >= REENTRANT_DESC {
+            let inner = match parse_expression("inner_q") {
+                Ok(a) => a.describe(),
+                Err(e) => format!("ERR {}", e),
+            };
+            format!("<{}|{}|{}>", id, parts, inner)
+        } else {
+            format!("<{}|{}>", id, parts)
+        }
+    }
+    let name = name.to_string();
+    match kind {
+        DKind::Unary => m.set_unary_descriptor(name, Arc::new(move |a, b| mark(id, format!("{}|{}", a, b)))),
+        DKind::Binary => m.set_binary_descriptor(name, Arc::new(move |a, b, c| mark(id, format!("{}|{}|{}", a, b, c)))),
+        DKind::Postfix => m.set_postfix_descriptor(name, Arc::new(move |a, b| mark(id, format!("{}|{}", a, b)))),
+        DKind::Ternary => m.set_ternary_descriptor(Arc::new(move |a, b, c| mark(id, format!("{}|{}|{}", a, b, c)))),
+        DKind::Function => m.set_function_descriptor(name, Arc::new(move |a, xs: Vec<String>| mark(id, format!("{}|{}", a, xs.join("|"))))),
+        DKind::Reference => m.set_reference_descriptor(name, Arc::new(move |a| mark(id, a))),
+        DKind::List => m.set_list_descriptor(Arc::new(move |xs: Vec<String>| mark(id, xs.join("|")))),
+        DKind::Map => m.set_map_descriptor(Arc::new(move |xs: Vec<(String, String)>| {
+            mark(id, xs.into_iter().map(|(k, v)| format!("{}=>{}", k, v)).collect::<Vec<_>>().join("|"))
+        })),
+        DKind::Chain => m.set_chain_descriptor(Arc::new(move |xs: Vec<String>| mark(id, xs.join("|")))),
     }
 }
 
@@ -325,12 +360,19 @@ impl Env {
             }
             Op::RegIn { name, prec, setter, right, h } => {
                 let (env, hid) = (self.clone(), *h);
+                let f: InfixArc = self
+                    .infix_arcs
+                    .lock()
+                    .unwrap()
+                    .entry(hid)
+                    .or_insert_with(|| Arc::new(move |a, b| env.invoke(hid, vec![a, b])))
+                    .clone();
                 register_infix_op(
                     name,
                     *prec,
                     if *setter { InfixOpType::SETTER } else { InfixOpType::CALC },
                     if *right { InfixOpAssociativity::RIGHT } else { InfixOpAssociativity::LEFT },
-                    Arc::new(move |a, b| env.invoke(hid, vec![a, b])),
+                    f,
                 );
                 Res::Unit
             }
@@ -416,39 +458,18 @@ impl Env {
                 }
             }
             Op::SetDesc { kind, name, id } => {
-                let id = *id;
-                // marker descriptors; ids >= REENTRANT_DESC re-enter the engine from inside the descriptor
-                fn mark(id: usize, parts: String) -> String {
-                    if id >= REENTRANT_DESC {
-                        let inner = match parse_expression("inner_q") {
-                            Ok(a) => a.describe(),
-                            Err(e) => format!("ERR {}", e),
-                        };
-                        format!("<{}|{}|{}>", id, parts, inner)
-                    } else {
-                        format!("<{}|{}>", id, parts)
-                    }
-                }
                 let mut m = DescriptorManager::new();
-                match kind {
-                    DKind::Unary => m.set_unary_descriptor(name.clone(), Arc::new(move |a, b| mark(id, format!("{}|{}", a, b)))),
-                    DKind::Binary => {
-                        m.set_binary_descriptor(name.clone(), Arc::new(move |a, b, c| mark(id, format!("{}|{}|{}", a, b, c))))
-                    }
-                    DKind::Postfix => m.set_postfix_descriptor(name.clone(), Arc::new(move |a, b| mark(id, format!("{}|{}", a, b)))),
-                    DKind::Ternary => m.set_ternary_descriptor(Arc::new(move |a, b, c| mark(id, format!("{}|{}|{}", a, b, c)))),
-                    DKind::Function => m.set_function_descriptor(
-                        name.clone(),
-                        Arc::new(move |a, xs: Vec<String>| mark(id, format!("{}|{}", a, xs.join("|")))),
-                    ),
-                    DKind::Reference => m.set_reference_descriptor(name.clone(), Arc::new(move |a| mark(id, a))),
-                    DKind::List => m.set_list_descriptor(Arc::new(move |xs: Vec<String>| mark(id, xs.join("|")))),
-                    DKind::Map => m.set_map_descriptor(Arc::new(move |xs: Vec<(String, String)>| {
-                        mark(id, xs.into_iter().map(|(k, v)| format!("{}=>{}", k, v)).collect::<Vec<_>>().join("|"))
-                    })),
-                    DKind::Chain => m.set_chain_descriptor(Arc::new(move |xs: Vec<String>| mark(id, xs.join("|")))),
-                }
+                set_desc(&mut m, *kind, name, *id);
                 Res::Unit
+            }
+            Op::WithManager { regs, then } => {
+                let mut m = DescriptorManager::new();
+                for (kind, name, id) in regs {
+                    set_desc(&mut m, *kind, name, *id);
+                }
+                let rs: Vec<Res> = then.iter().map(|o| self.guarded(o)).collect();
+                drop(m);
+                Res::Many(rs)
             }
             Op::Describe { prog } => {
                 let text = prog.text();
@@ -566,6 +587,7 @@ pub fn run_case(case: &Arc<Case>, spec: &SchedSpec) -> RunOutput {
         hcount: StdMutex::new(vec![]),
         slots: StdMutex::new(vec![]),
         shared: StdMutex::new(SharedAsts { asts: vec![], texts: vec![] }),
+        infix_arcs: StdMutex::new(std::collections::HashMap::new()),
     });
     let rec = Arc::new(StdMutex::new(SchedRecord::default()));
     let mut cfg = shuttle::Config::new();
@@ -604,6 +626,9 @@ pub fn run_case(case: &Arc<Case>, spec: &SchedSpec) -> RunOutput {
     if let Ok(mut s) = env.shared.lock() {
         s.asts.clear();
     }
+    if let Ok(mut s) = env.infix_arcs.lock() {
+        s.clear();
+    }
     RunOutput { log, rec, verdict }
 }
 
@@ -618,6 +643,7 @@ pub fn run_case_std(case: &Arc<Case>) -> Vec<Ev> {
         hcount: StdMutex::new(vec![]),
         slots: StdMutex::new(vec![]),
         shared: StdMutex::new(SharedAsts { asts: vec![], texts: vec![] }),
+        infix_arcs: StdMutex::new(std::collections::HashMap::new()),
     });
     let e2 = env.clone();
     let _ = catch_unwind(AssertUnwindSafe(move || e2.main_body()));
